@@ -12,7 +12,13 @@ bin probabilities).  Every clause below is taken from the property statement, no
               squaring on non-negative numbers, independent of every cogent3 back-end, so all back-ends are
               compared with one reference and therefore with each other); P(s) P(t) = P(s+t) (edges a, b, c of the
               tree carry s, t, s+t); w P = w / detailed balance of P for stationary / reversible models.
-  rate classes  sum_b bprob_b rate_b = 1, rates > 0, every bin's Q calibrated, P(bin, edge) == exp(Q len rate_b).
+  rate classes  sum_b bprob_b rate_b = 1, rates > 0, every bin's Q calibrated, P(bin, edge) == exp(Q len rate_b),
+              sum_b bprob_b rate_b len (-sum_i w_i Q_ii) == len (a branch length is the expected number of
+              substitutions); the un-calibrated matrix of an edge (both entry points) is the generator of that
+              edge's P, i.e. Q * length * bin rate (keys containing "uncalibrated": this is the docstring of
+              get_rate_matrix_for_edge read together with the branch-length clause, one step away from the statement).
+  back-ends   every exponentiator class of maths/matrix_exponentiation.py (incl. Taylor, which set_expm does not
+              offer, and SemiSymmetric) and every ExpDefn setting, on rate matrices written by the spec.
 
 Tolerances: 1e-9 relative to max(1, max|Q|) on Q, 1e-8 absolute on P (DESIGN.md).
 Allowed refusals (never counted as failures): ArithmeticError / LinAlgError from the settings "eigen" and "checked"
@@ -442,7 +448,6 @@ def gen_q(tier, seed):
         for pv in param_vectors(len(names), tier, rnd, richer=True):
             for pi in pi4_list(mid, tier, rnd):
                 yield [mid, [[n, v] for n, v in zip(names, pv)], ["default"] if pi is None else ["list", pi]]
-    aa = 20
     for mid in PROTEIN:
         yield [mid, [], ["default"]]
         yield [mid, [], ["u"]]
@@ -600,7 +605,6 @@ def gen_rates(tier, seed):
 
 
 def check_rates(case):
-    from cogent3.maths.optimisers import ParameterOutOfBoundsError
     cfg, mid, bins, bprobs, extra, params, pi, L, ex = case
     desc = ["named", mid, RATE_CONFIGS[cfg]]
     sm = get_sm(desc)
